@@ -32,8 +32,9 @@ import (
 // ---- case descriptors ----------------------------------------------------------------------------------
 
 type entry struct {
-	Kind   string `json:"kind"`   // tcp | tcp+tls | ws | udp
-	Manner string `json:"manner"` // good | plain | refused | silent | silent-inner | hs-400 | hs-garbage | hs-close
+	Kind   string `json:"kind"`           // tcp | tcp+tls | ws | udp
+	Manner string `json:"manner"`         // good | plain | refused | silent | silent-inner | hs-400 | hs-garbage | hs-close
+	Host   string `json:"host,omitempty"` // "" | localhost | ip: spelling of the host in the upstream URL; a real endpoint's certificate is valid for that spelling only
 }
 
 // anyCase is the replayable descriptor of every kind of C16 case (Part selects which fields matter).
@@ -41,11 +42,12 @@ type anyCase struct {
 	Part    string  `json:"part"` // list | silent | reuse | loss
 	Entries []entry `json:"entries,omitempty"`
 	Forward string  `json:"forward,omitempty"` // none | reachable | refused
+	End     string  `json:"end,omitempty"`     // forward reachable: how the served connection ends: "" (orderly) | target-reset | app-abort
 	Secure  bool    `json:"secure"`
-	Kind    string  `json:"kind,omitempty"` // reuse, loss
-	M       int     `json:"m,omitempty"`    // reuse
-	How     string  `json:"how,omitempty"`  // loss: cut-fin | cut-rst | server-restart | server-restart-attempt-while-down | server-gone | black-hole
-	When    string  `json:"when,omitempty"` // loss: idle | mid-transfer | during-open
+	Kind    string  `json:"kind,omitempty"`  // reuse, loss
+	M       int     `json:"m,omitempty"`     // reuse
+	How     string  `json:"how,omitempty"`   // loss: cut-fin | cut-rst | server-restart | server-restart-attempt-while-down | server-gone | black-hole
+	When    string  `json:"when,omitempty"`  // loss: idle | mid-transfer | during-open
 	Burst   int     `json:"burst,omitempty"` // loss: that many local connections at once after the loss (0 = one)
 	Probe   bool    `json:"probe_recovery,omitempty"`
 	Seed    int64   `json:"seed"`
@@ -147,7 +149,7 @@ func build(entries []entry, forward string, secure bool) (*scenario, error) {
 		name := ""
 		if isReal(en) {
 			name = fmt.Sprintf("E%d", i)
-			ep, err = e2e.NewC16Endpoint(en.Kind, name, en.Manner == "good")
+			ep, err = e2e.NewC16EndpointHost(en.Kind, name, en.Manner == "good", en.Host)
 			if err == nil {
 				s.targets[name] = ep.Target
 				urls = append(urls, ep.URL())
@@ -155,6 +157,7 @@ func build(entries []entry, forward string, secure bool) (*scenario, error) {
 		} else {
 			sc, err = e2e.NewC16Scripted(en.Kind, en.Manner)
 			if err == nil {
+				sc.Host = en.Host
 				urls = append(urls, sc.URL())
 			}
 		}
@@ -389,7 +392,35 @@ func runList(rec *vcommon.Rec, c *anyCase) (stalled bool) {
 			second = s.connect(key+1, 1500, wait, false)
 		})
 	}
-	r := s.connect(key, 3000, wait, false)
+	r := s.connect(key, 3000, wait, c.End != "")
+	if c.End != "" && r.Outcome == "served" && r.app != nil && r.tgt != nil {
+		// the served connection ends with a transport error instead of an orderly close; the reference model does not
+		// care how a connection that WAS served ends: the upstreams stay untouched
+		ended := e2e.Go(func() {
+			switch c.End {
+			case "target-reset":
+				if l, ok := r.tgt.(interface{ SetLinger(int) error }); ok {
+					l.SetLinger(0)
+				}
+				r.tgt.Close()
+				io.Copy(io.Discard, r.app)
+			case "app-abort":
+				// the application dies with unread data in its socket: its peer sees a reset, not an end-of-stream
+				r.tgt.Write(make([]byte, 4096))
+				time.Sleep(200 * time.Millisecond)
+				r.app.Close()
+				io.Copy(io.Discard, r.tgt)
+			}
+		})
+		if e2e.Wait(ended) == e2e.Done {
+			rec.Stat("forward_connections_ended_by:"+c.End, 1)
+		}
+		r.done()
+		// give a client that wrongly carries on the time to show it (its first Connect call comes at once)
+		for i := 0; i < 30 && len(s.cl.Trace.Trials()) == 0; i++ {
+			time.Sleep(50 * time.Millisecond)
+		}
+	}
 	if secondDone != nil {
 		<-secondDone
 	}
@@ -480,7 +511,11 @@ func runList(rec *vcommon.Rec, c *anyCase) (stalled bool) {
 			if want == "FWD" && len(trials) > 0 {
 				// decided by the client's own Connect calls on the listed upstreams; the endpoints' counters are
 				// reported with it (a stray datagram from elsewhere on the machine can move a udp counter)
-				viol("forward:not-tried-first")
+				if c.End != "" {
+					viol("forward:upstreams-used-although-the-forward-address-served-the-connection:" + c.End)
+				} else {
+					viol("forward:not-tried-first")
+				}
 			}
 			if want != "FWD" && wantIdx >= 0 && phys[wantIdx] < 1 {
 				viol("harness:served-without-a-physical-connection") // cannot happen; guards the counters themselves
@@ -537,31 +572,31 @@ func (c *cycle) next() entry {
 
 func pools(secure bool) (good, reached, unreached []entry) {
 	for _, k := range e2e.C16Kinds {
-		good = append(good, entry{k, "good"})
+		good = append(good, entry{Kind: k, Manner: "good"})
 		if !secure && k != "tcp+tls" {
-			good = append(good, entry{k, "plain"})
+			good = append(good, entry{Kind: k, Manner: "plain"})
 		}
 		if k == "udp" {
-			reached = append(reached, entry{k, "hs-400"}, entry{k, "hs-garbage"})
+			reached = append(reached, entry{Kind: k, Manner: "hs-400"}, entry{Kind: k, Manner: "hs-garbage"})
 		} else {
-			reached = append(reached, entry{k, "refused"}, entry{k, "hs-400"}, entry{k, "hs-garbage"}, entry{k, "hs-close"})
+			reached = append(reached, entry{Kind: k, Manner: "refused"}, entry{Kind: k, Manner: "hs-400"}, entry{Kind: k, Manner: "hs-garbage"}, entry{Kind: k, Manner: "hs-close"})
 		}
 		if secure && k != "tcp+tls" {
-			reached = append(reached, entry{k, "plain"})
+			reached = append(reached, entry{Kind: k, Manner: "plain"})
 		}
 	}
 	unreached = append(unreached, reached...)
 	for _, k := range e2e.C16Kinds {
-		unreached = append(unreached, entry{k, "silent"})
+		unreached = append(unreached, entry{Kind: k, Manner: "silent"})
 	}
-	unreached = append(unreached, entry{"udp", "refused"}, entry{"tcp+tls", "silent-inner"}, entry{"ws", "silent-inner"})
+	unreached = append(unreached, entry{Kind: "udp", Manner: "refused"}, entry{Kind: "tcp+tls", Manner: "silent-inner"}, entry{Kind: "ws", Manner: "silent-inner"})
 	unreached = append(unreached, halfSilent...)
 	return
 }
 
 // halfSilent: upstreams that play a correct server for the first part of the handshake and then fall silent
-var halfSilent = []entry{{"tcp", "silent-after-200"}, {"tcp", "silent-in-starttls"}, {"tcp+tls", "silent-after-200"},
-	{"ws", "silent-after-200"}, {"ws", "silent-in-starttls"}, {"udp", "silent-after-200"}, {"udp", "silent-in-starttls"}}
+var halfSilent = []entry{{Kind: "tcp", Manner: "silent-after-200"}, {Kind: "tcp", Manner: "silent-in-starttls"}, {Kind: "tcp+tls", Manner: "silent-after-200"},
+	{Kind: "ws", Manner: "silent-after-200"}, {Kind: "ws", Manner: "silent-in-starttls"}, {Kind: "udp", Manner: "silent-after-200"}, {Kind: "udp", Manner: "silent-in-starttls"}}
 
 func listCases(rec *vcommon.Rec) []*anyCase {
 	rng := vcommon.NewRand(rec.Seed(), "c16/list")
@@ -603,6 +638,29 @@ func listCases(rec *vcommon.Rec) []*anyCase {
 		}
 	}
 	all := []string{"none", "reachable", "refused"}
+	defer func() {
+		// every second list of two or more entries spells its hosts alternately by name and by address, and every real
+		// endpoint's certificate is valid for its own spelling only
+		for k, c := range out {
+			if len(c.Entries) >= 2 && k%2 == 1 {
+				es := append([]entry{}, c.Entries...)
+				for i := range es {
+					es[i].Host = []string{"localhost", "ip"}[(i+k/2)%2]
+				}
+				c.Entries = es
+			}
+		}
+	}()
+	defer func() {
+		// every second case with a reachable forward address ends its connection with a transport error
+		k := 0
+		for _, c := range out {
+			if c.Forward == "reachable" {
+				c.End = []string{"", "target-reset", "", "app-abort"}[k%4]
+				k++
+			}
+		}
+	}()
 	reps := rec.Pick(8, 60)
 	for rep := 0; rep < reps; rep++ {
 		for length := 1; length <= 3; length++ {
@@ -622,28 +680,28 @@ func silentCases(rec *vcommon.Rec) []*anyCase {
 	add := func(secure bool, fw string, es ...entry) {
 		out = append(out, &anyCase{Part: "silent", Entries: es, Forward: fw, Secure: secure, Seed: rec.Seed()*100000 + 50000 + int64(len(out))})
 	}
-	add(false, "none", entry{"tcp", "silent"}, entry{"tcp", "good"})
-	add(false, "none", entry{"tcp+tls", "silent"}, entry{"ws", "plain"})
-	add(false, "none", entry{"tcp+tls", "silent-inner"}, entry{"tcp+tls", "good"})
-	add(false, "none", entry{"ws", "silent"}, entry{"udp", "good"})
-	add(false, "none", entry{"ws", "silent-inner"}, entry{"tcp", "plain"})
-	add(false, "none", entry{"udp", "silent"}, entry{"tcp", "good"})
-	add(false, "none", entry{"udp", "refused"}, entry{"udp", "plain"})
-	add(false, "refused", entry{"tcp", "refused"}, entry{"tcp", "silent"}, entry{"ws", "good"})
-	add(true, "none", entry{"tcp", "plain"}, entry{"tcp", "silent"}, entry{"tcp+tls", "good"})
-	add(false, "none", entry{"tcp", "silent"}) // nobody good: must be given up, not held for ever
+	add(false, "none", entry{Kind: "tcp", Manner: "silent"}, entry{Kind: "tcp", Manner: "good"})
+	add(false, "none", entry{Kind: "tcp+tls", Manner: "silent"}, entry{Kind: "ws", Manner: "plain"})
+	add(false, "none", entry{Kind: "tcp+tls", Manner: "silent-inner"}, entry{Kind: "tcp+tls", Manner: "good"})
+	add(false, "none", entry{Kind: "ws", Manner: "silent"}, entry{Kind: "udp", Manner: "good"})
+	add(false, "none", entry{Kind: "ws", Manner: "silent-inner"}, entry{Kind: "tcp", Manner: "plain"})
+	add(false, "none", entry{Kind: "udp", Manner: "silent"}, entry{Kind: "tcp", Manner: "good"})
+	add(false, "none", entry{Kind: "udp", Manner: "refused"}, entry{Kind: "udp", Manner: "plain"})
+	add(false, "refused", entry{Kind: "tcp", Manner: "refused"}, entry{Kind: "tcp", Manner: "silent"}, entry{Kind: "ws", Manner: "good"})
+	add(true, "none", entry{Kind: "tcp", Manner: "plain"}, entry{Kind: "tcp", Manner: "silent"}, entry{Kind: "tcp+tls", Manner: "good"})
+	add(false, "none", entry{Kind: "tcp", Manner: "silent"}) // nobody good: must be given up, not held for ever
 	// silent only after a correct first answer / inside StartTLS
-	add(false, "none", entry{"tcp", "silent-after-200"}, entry{"tcp", "good"})
-	add(false, "none", entry{"tcp", "silent-in-starttls"}, entry{"ws", "good"})
-	add(true, "none", entry{"tcp+tls", "silent-after-200"}, entry{"tcp", "good"})
-	add(false, "none", entry{"ws", "silent-after-200"}, entry{"tcp", "plain"})
-	add(true, "none", entry{"ws", "silent-in-starttls"}, entry{"udp", "good"})
-	add(false, "refused", entry{"udp", "silent-after-200"}, entry{"tcp+tls", "good"})
-	add(false, "none", entry{"udp", "silent-in-starttls"}, entry{"tcp", "good"})
-	add(true, "none", entry{"tcp", "hs-close"}, entry{"tcp", "silent-in-starttls"}) // nobody good
+	add(false, "none", entry{Kind: "tcp", Manner: "silent-after-200"}, entry{Kind: "tcp", Manner: "good"})
+	add(false, "none", entry{Kind: "tcp", Manner: "silent-in-starttls"}, entry{Kind: "ws", Manner: "good"})
+	add(true, "none", entry{Kind: "tcp+tls", Manner: "silent-after-200"}, entry{Kind: "tcp", Manner: "good"})
+	add(false, "none", entry{Kind: "ws", Manner: "silent-after-200"}, entry{Kind: "tcp", Manner: "plain"})
+	add(true, "none", entry{Kind: "ws", Manner: "silent-in-starttls"}, entry{Kind: "udp", Manner: "good"})
+	add(false, "refused", entry{Kind: "udp", Manner: "silent-after-200"}, entry{Kind: "tcp+tls", Manner: "good"})
+	add(false, "none", entry{Kind: "udp", Manner: "silent-in-starttls"}, entry{Kind: "tcp", Manner: "good"})
+	add(true, "none", entry{Kind: "tcp", Manner: "hs-close"}, entry{Kind: "tcp", Manner: "silent-in-starttls"}) // nobody good
 	if rec.Thorough() {
 		rng := vcommon.NewRand(rec.Seed(), "c16/silent")
-		sil := []entry{{"tcp", "silent"}, {"tcp+tls", "silent"}, {"tcp+tls", "silent-inner"}, {"ws", "silent"}, {"ws", "silent-inner"}, {"udp", "silent"}, {"udp", "refused"}}
+		sil := []entry{{Kind: "tcp", Manner: "silent"}, {Kind: "tcp+tls", Manner: "silent"}, {Kind: "tcp+tls", Manner: "silent-inner"}, {Kind: "ws", Manner: "silent"}, {Kind: "ws", Manner: "silent-inner"}, {Kind: "udp", Manner: "silent"}, {Kind: "udp", Manner: "refused"}}
 		sil = append(sil, halfSilent...)
 		for i, x := range sil {
 			secure := i%2 == 0
@@ -667,7 +725,7 @@ func silentCases(rec *vcommon.Rec) []*anyCase {
 
 func runReuse(rec *vcommon.Rec, c *anyCase) (stalled bool) {
 	rec.Mark(c)
-	s, err := build([]entry{{c.Kind, "good"}}, "none", c.Secure)
+	s, err := build([]entry{{Kind: c.Kind, Manner: "good"}}, "none", c.Secure)
 	if err != nil {
 		rec.Inconclusive("fixture: "+err.Error(), c)
 		return false
@@ -753,9 +811,9 @@ func runReuse(rec *vcommon.Rec, c *anyCase) (stalled bool) {
 
 func runLoss(rec *vcommon.Rec, c *anyCase) (stalled bool) {
 	rec.Mark(c)
-	entries := []entry{{c.Kind, "good"}}
+	entries := []entry{{Kind: c.Kind, Manner: "good"}}
 	if c.How == "server-gone" {
-		entries = append(entries, entry{"tcp", "good"})
+		entries = append(entries, entry{Kind: "tcp", Manner: "good"})
 	}
 	s, err := build(entries, "none", c.Secure)
 	if err != nil {
